@@ -15,6 +15,7 @@ fn usage() -> ! {
 
 fn main() {
     install_panic_hook();
+    framework::watchdog::start();
     let args: Vec<String> = std::env::args().collect();
     if args.len() < 2 {
         usage();
@@ -102,9 +103,12 @@ fn main() {
                 "dev-full" => replay_text(&checks::c15::DevFull, &text),
                 "config-export-trees" => replay_text(&checks::c15::ConfigExport, &text),
                 "config-export-templates" => replay_text(&checks::c15::TemplateExport, &text),
-                "seq-vs-par" => replay_text(&checks::c08::SeqVsPar { prop: "C08", name: "seq-vs-par" }, &text),
-                "seq-vs-par-c05" => replay_text(&checks::c08::SeqVsPar { prop: "C05", name: "seq-vs-par-c05" }, &text),
-                "seq-vs-par-c06" => replay_text(&checks::c08::SeqVsPar { prop: "C06", name: "seq-vs-par-c06" }, &text),
+                "seq-vs-par" => replay_text(&checks::c08::SeqVsPar { prop: "C08", name: "seq-vs-par", mix: false }, &text),
+                "seq-vs-par-c05" => replay_text(&checks::c08::SeqVsPar { prop: "C05", name: "seq-vs-par-c05", mix: false }, &text),
+                "seq-vs-par-c06" => replay_text(&checks::c08::SeqVsPar { prop: "C06", name: "seq-vs-par-c06", mix: false }, &text),
+                "seq-vs-par-c16" => replay_text(&checks::c08::SeqVsPar { prop: "C16", name: "seq-vs-par-c16", mix: false }, &text),
+                "seq-vs-par-mix-c05" => replay_text(&checks::c08::SeqVsPar { prop: "C05", name: "seq-vs-par-mix-c05", mix: true }, &text),
+                "seq-vs-par-mix-c06" => replay_text(&checks::c08::SeqVsPar { prop: "C06", name: "seq-vs-par-mix-c06", mix: true }, &text),
                 "generators" => replay_text(&checks::c08::Generators, &text),
                 "evaluator-identifiers" => replay_text(&checks::tworld::EvalIds, &text),
                 "individual-histories" => replay_text(&checks::indiv::IndividualHistories, &text),
